@@ -157,6 +157,35 @@ def corr_parseB(ctx, items, name='corr_parseB'):
     return [(items[i], cases[i][1], o) for i, o in bad]
 
 
+def modelled_MT(p):
+    """Manchester tables whose middle timings are (mark, space) tuples or plain durations (MCE, RC6632, XBox360, RC5x): inside the
+    model PyIR.Engine.ParseMT.parseMT."""
+    return p['eclass'] == 'M' and len(p['middle']) >= 1 and not (p['lead_in'] and p['lead_in'][-1] == PLACEHOLDER) \
+        and all((isinstance(m, tuple) and len(m) == 2 and all(isinstance(x, int) for x in m)) or
+                (isinstance(m, int) and not isinstance(m, bool)) for m in p['middle']) \
+        and all(isinstance(b, list) and len(b) == 2 for b in p['bursts'])
+
+
+def coq_mids(middle):
+    return '[' + '; '.join('(true, %s, %s)' % (vlib.z(m[0]), vlib.z(m[1])) if isinstance(m, tuple) else '(false, %s, 0)' % vlib.z(m)
+                           for m in middle) + ']'
+
+
+def corr_parseMT(ctx, items, name='corr_parseMT'):
+    """items: list of (p, code, tol, tag) for protocols with modelled_MT.  Returns disagreements or None."""
+    cases = []
+    for p, code, tol, tag in items:
+        cases.append(('(%s, %s, %s, %s, %s, %s)' % (
+            vlib.z(tol), vlib.zlist(p['lead_in']), vlib.zlist(p['lead_out']), coq_mids(p['middle']), coq_ptable(p['bursts']),
+            vlib.zlist(code)), real_parseMD(p, code, tol)))
+    _outcomes(ctx, name, cases)
+    bad = vlib.run_model_cases(ctx, name, 'Require Import PyIR.Base.Result PyIR.Engine.ParseMT.', 'run_parseMT',
+                               '(Z * list Z * list Z * list (bool * Z * Z) * list (Z * Z) * list Z)', cases, shard=300)
+    if bad is None:
+        return None
+    return [(items[i], cases[i][1], o) for i, o in bad]
+
+
 PARSE_IMPORTS = 'Require Import PyIR.Base.Result PyIR.Engine.EngineRun.'
 PARSE_TYPE = '(Z * list Z * list Z * list (Z * Z) * list Z)'
 
